@@ -39,6 +39,7 @@ pub fn assumptions() -> Vec<String> {
         "entry points on an accepted builder are compared with the checked form (Debug text or PartialEq of the fitted model, partition for hierarchical clustering whose ids follow HashMap order, sorted vocabulary for CountVectorizer, output shape only for t-SNE) only when every value lies in the per-parameter interval the tiny training run is exercised with (e.g. not with Platt minstep = 0 or SVM eps = 0, where training does not terminate in reasonable time); otherwise only check/check_ref are exercised",
         "a training failure that depends on the data (power method not converged, Platt not converged, JL dimension larger than the feature count) is an accepted outcome when the unchecked builder and the checked form fail with the same text",
         "history cases: a builder is configured with a first assignment, one of {check_ref, check on a copy, the training entry point} runs on it (outcome ignored), then the same builder (or a clone taken afterwards) is re-configured through its setters; verdict, error text, checked value, builder equality and training result must equal those of a fresh builder configured directly with the second assignment. Parameters that can only be given to the constructor (k-means / GMM n_clusters, DBSCAN / OPTICS min_points) are equal in both assignments. The first training run only happens when the first assignment lies in the trainable intervals",
+        "SVM history cases with an odd seed: the first life selects the other of the two mutually exclusive variants (Nu 0.4 resp. C weights (7, 3), always valid) with the solver eps / Platt values of the first assignment; the setter under test must displace it (checked value: the other variant must read back as None, as the setters' code and the 'either C or Nu' docs promise). The valid/invalid label of the first assignment of those cases refers to the row's own table and is approximate for the non-trivial count",
         "count vectoriser tokenizer parameter: 0 = default regex, 1 = the regex \\b[^ ][^ ]+\\b, 2 = the invalid regex '[' (documented: 'Returns an error if the regex expression for the split is invalid'), 3 = a function tokenizer",
         "linfa_clustering::AppxDbscan is an alias of Dbscan in the pinned tree (its own hyperparams module is not compiled), so it has no separate row",
     ]
